@@ -228,7 +228,28 @@ func C07(p *core.Program, r *core.Report) {
 		cutT, m1 := core.CutAtoms(p, txt, reN, true)
 		cutF, _ := core.CutAtoms(p, txt, reN, false)
 		c := core.NewCanon(p)
-		r.Add("N2", "Text.GenerateOutput tests whether its root is nestable", p.Pos(txt.Pos()), len(m1) == 1, fmt.Sprintf("%d tests", len(m1)))
+		r.Add("N2", "Text.GenerateOutput tests whether its root is nestable", p.Pos(txt.Pos()), len(m1) >= 1, fmt.Sprintf("%d tests", len(m1)))
+		// a nestable root is wrapped by its pair of Tags: it must not also be wrapped in clones
+		// of its parents (the loop that retains parents of an inline root; a blockquote or pre
+		// styled display:inline would come out as blockquote > div > blockquote)
+		loops, _ := core.NaturalLoops(txt)
+		nWrap := 0
+		for _, call := range core.Calls(txt, func(ci ssa.CallInstruction) bool {
+			return core.IsCallTo(ci, "github.com/go-shiori/dom.AppendChild", "(*golang.org/x/net/html.Node).AppendChild")
+		}) {
+			in := call.(ssa.Instruction)
+			inLoop := false
+			for _, l := range loops {
+				inLoop = inLoop || l.Body[in.Block()]
+			}
+			if !inLoop {
+				continue
+			}
+			nWrap++
+			r.Add("N2", "Text: a root is wrapped in a clone of its parent only when it is not nestable", p.Pos(call.Pos()), !core.InstrReachable(txt, cutF, in),
+				"with the `root is not nestable` edges removed the wrapping must be unreachable")
+		}
+		r.Add("N2", "Text: parent-retaining loop examined", p.Pos(txt.Pos()), nWrap >= 1, fmt.Sprintf("%d wrapping calls inside loops", nWrap))
 		for _, ret := range core.Returns(txt) {
 			v := c.Of(ret.Results[0])
 			switch {
